@@ -7,6 +7,7 @@ Lemmas/LayoutMarkBuilder.lean.
 -/
 import FontVerif.Props.C16Lookup
 import FontVerif.Lemmas.LayoutClassPair
+import FontVerif.Lemmas.LayoutMarkBuilder
 set_option linter.unusedVariables false
 namespace FontVerif.C16
 open FontVerif FontVerif.Layout
@@ -195,6 +196,200 @@ example : classRulesValue exClassRules 5 9 = some (some (4, 0, 300)) ∧
   decide +kernel
 /-- `pos A V 0;` before a class rule covering A and V: the explicit zero wins -/
 example : pairRulesValue [((5, 9), (4, 0, 0))] exClassRules 5 9 = some (some (4, 0, 0)) := by
+  decide +kernel
+
+/-! ## `MarkToBaseBuilder` -/
+
+/-- **markbase_builder_reads_back.**  Apply ANY sequence of `insert_mark(glyph, class name, anchor)`
+/ `insert_base(glyph, class name, anchor)` calls (glyphs < 65536) that does not panic (`insert_base`
+for a class name no mark has used yet panics: `expect("marks added before bases")`) to an empty
+`MarkToBaseBuilder`.  `build` does not panic (every class id indexes the base record), the mark
+class count is the number of distinct class names, and for EVERY (mark, base) pair the compiled
+MarkBasePos subtable answers what the inserts say: the LAST `insert_mark` of the mark glyph gives
+its class and mark anchor (also when it moved the glyph to another class and returned `Err`), the
+LAST `insert_base` of the base glyph for that class gives the base anchor; a base without an anchor
+for the mark's class has a NULL offset there and does not match. -/
+theorem markbase_builder_reads_back {A : Type} (ops : List (MbOp A))
+    (hg : ∀ op ∈ ops, op.glyph < 65536) (b : MarkToBase A)
+    (hb : MarkToBase.ofOps ops MarkToBase.empty = some b) :
+    ∃ t, b.build = some t ∧ t.classCount = b.marks.classes.length ∧
+      ∀ m bg, t.lookup m bg = mbExpected ops m bg :=
+  mbInv_build_lookup ops b (mbInv_ofOps ops hg b hb)
+
+/-- class ids are handed out in the order in which class names first appear: `0, 1, 2, …` -/
+theorem markbase_builder_class_ids {A : Type} (ops : List (MbOp A))
+    (hg : ∀ op ∈ ops, op.glyph < 65536) (b : MarkToBase A)
+    (hb : MarkToBase.ofOps ops MarkToBase.empty = some b) :
+    b.marks.classes.map (·.2) = List.range b.marks.classes.length ∧
+    (b.marks.classes.map (·.1)).Nodup :=
+  ⟨(mbInv_ofOps ops hg b hb).ids, (mbInv_ofOps ops hg b hb).names⟩
+
+/-- the built subtable satisfies the hypotheses of `markbase_split_preserves` whenever its mark
+coverage is well formed: it can be split at any points without changing a lookup -/
+theorem markbase_builder_then_split {A : Type} (ops : List (MbOp A))
+    (hg : ∀ op ∈ ops, op.glyph < 65536) (b : MarkToBase A)
+    (hb : MarkToBase.ofOps ops MarkToBase.empty = some b) (t : MarkBase A) (ht : b.build = some t)
+    (hrows : ∀ row ∈ t.bases, row.length = t.classCount)
+    (pts : List Nat) (hinc : pts.Pairwise (· ≤ ·)) (hlast : pts.getLast? = some t.classCount) :
+    ∃ ts, splitMarkBaseGo t 0 pts = some ts ∧ ∀ m bg, firstMatchMB ts m bg = mbExpected ops m bg := by
+  have inv := mbInv_ofOps ops hg b hb
+  obtain ⟨t', ht', _, hl⟩ := mbInv_build_lookup ops b inv
+  rw [ht] at ht'; cases ht'
+  have hcov : t.markCov = buildCoverage (b.marks.glyphs.map (·.1)) ∧ t.marks = b.marks.glyphs.map (·.2) := by
+    unfold MarkToBase.build at ht
+    simp only at ht
+    split at ht
+    · cases ht
+    · cases ht; exact ⟨rfl, rfl⟩
+  have ⟨w, e⟩ := buildCoverage_wf (b.marks.glyphs.map (·.1)) inv.mbound
+  obtain ⟨ts, a, _, c⟩ := markbase_split_preserves t (by rw [hcov.1]; exact w)
+    (by rw [hcov.1, hcov.2, e, sortDedup_of_sorted inv.msorted]; simp) hrows pts hinc hlast
+  exact ⟨ts, a, fun m bg => by rw [c, hl]⟩
+
+/-! ## the MarkToBase split: `get_class_info` and the size loop
+
+KNOWN FINDING `C16-markbase-null-anchor-class-info`, as theorems.  `get_class_info` attributes the
+base anchors to mark classes by cutting the base array's offset list — which holds only the
+NON-NULL anchors — into chunks of `mark_class_count`.  The attribution only feeds the size
+estimate (the split points); the marks of a class, which drive the split itself, are taken from the
+mark records and are always right. -/
+
+/-- the children of class `c`: its mark anchors, then entry `c` of every complete chunk -/
+theorem class_info_children (k : Nat) (recs : List (Nat × Nat)) (offs : List Nat) (c : Nat) (hc : c < k) :
+    ((getClassInfo k recs offs)[c]?).map (·.children) =
+      some ((((List.range recs.length).filter (fun i => (recs.getD i (0, 0)).1 == c)).map
+          (fun i => (recs.getD i (0, 0)).2)) ++
+        (chunksExact k offs).filterMap (fun ch => ch[c]?)) := by
+  simp [getClassInfo, hc]
+
+/-- **class_info_exact_without_nulls.**  When every base record has an anchor for every mark class,
+the real attribution IS the column-wise one. -/
+theorem class_info_exact_without_nulls (k : Nat) (recs : List (Nat × Nat))
+    (rows : List (List (Option Nat))) (hfull : ∀ row ∈ rows, FullRow k row) :
+    getClassInfo k recs (baseOffsetsOf rows) = idealClassInfo k recs rows := by
+  unfold getClassInfo idealClassInfo
+  by_cases hk : k = 0
+  · subst hk; rfl
+  · have hk' : 0 < k := Nat.pos_of_ne_zero hk
+    have hch : chunksExact k (baseOffsetsOf rows) = rows.map (fun row => row.filterMap id) := by
+      unfold baseOffsetsOf
+      rw [List.flatMap_def]
+      apply chunksExact_flatten k hk'
+      intro r hr
+      obtain ⟨row, hrow, rfl⟩ := List.mem_map.mp hr
+      exact (fullRow_filterMap k row (hfull row hrow)).1
+    apply List.map_congr_left
+    intro c _
+    rw [hch, List.filterMap_map]
+    have : List.filterMap ((fun ch : List Nat => ch[c]?) ∘ fun row => List.filterMap id row) rows =
+        List.filterMap (fun row => (row[c]?).join) rows := by
+      apply filterMap_congr'
+      intro row hrow
+      exact (fullRow_filterMap k row (hfull row hrow)).2 c
+    simp only [this]
+
+/-- **class_info_chunk_position.**  The `p`-th non-null base anchor (row-major) is attributed to class
+`p % k` (as entry `p / k` of that class' chunk column) — unless it lies in the incomplete last
+chunk, which `chunks_exact` drops: then it is attributed to NO class. -/
+theorem class_info_chunk_position (k : Nat) (hk : 0 < k) (offs : List Nat) (p : Nat)
+    (hp : p < offs.length) :
+    ((chunksExact k offs)[p / k]?).bind (·[p % k]?) =
+      if p / k < offs.length / k then offs[p]? else none :=
+  chunksExact_getElem k hk offs.length offs rfl p hp
+
+/-- **class_info_misattributes_iff.**  Let `cells` be the base anchor matrix in row-major order
+(`k` offsets per base record, `none` = null) and let the cell at flat position `f` hold anchor `x`
+(so its true mark class is `f % k`).  In the offset list that `get_class_info` chunks, `x` sits at
+position `p = f − (number of null cells before f)`, so it is attributed to class `p % k`; that is
+the true class EXACTLY when the number of null offsets before it is a multiple of `k`. -/
+theorem class_info_misattributes_iff (k : Nat) (hk : 0 < k) (cells : List (Option Nat)) (f x : Nat)
+    (h : cells[f]? = some (some x)) :
+    (cells.filterMap id)[nonNullBefore cells f]? = some x ∧
+    nonNullBefore cells f + nullsBefore cells f = f ∧
+    (nonNullBefore cells f % k = f % k ↔ nullsBefore cells f % k = 0) := by
+  have hf : f < cells.length := by
+    rcases Nat.lt_or_ge f cells.length with h' | h'
+    · exact h'
+    · rw [List.getElem?_eq_none h'] at h; cases h
+  have hsum := nonNull_add_nulls cells f (Nat.le_of_lt hf)
+  refine ⟨baseOffsets_position cells f x h, hsum, ?_⟩
+  rw [mod_eq_iff_sub_mod k f _ hk (by omega)]
+  have : f - nonNullBefore cells f = nullsBefore cells f := by omega
+  rw [this]
+
+/-- **mb_points_valid.**  Whatever the class information says (the real chunked attribution, the
+column-wise one, anything) and whatever the object sizes are, the split points the size loop of
+`split_mark_to_base_subtable` computes are strictly increasing, never exceed the class count and
+end with the class count. -/
+theorem mb_points_valid (obj : Nat → AnchorObj) (baseCovSize baseCount : Nat)
+    (infos : List MbClassInfo) (pts : List Nat)
+    (h : mbSplitPoints obj baseCovSize baseCount infos = some pts) :
+    pts.Pairwise (· < ·) ∧ pts.getLast? = some infos.length ∧ ∀ p ∈ pts, p ≤ infos.length := by
+  unfold mbSplitPoints at h
+  simp only at h
+  have inv := mbLoop_inv obj (16 + baseCovSize) baseCount infos ⟨4, 16 + baseCovSize, [], []⟩ 0
+    ⟨List.Pairwise.nil, fun p hp => nomatch hp⟩
+  generalize mbLoop obj (16 + baseCovSize) baseCount ⟨4, 16 + baseCovSize, [], []⟩ 0 infos = st at h inv
+  split at h
+  · cases h
+  · cases h
+    simp only [Nat.zero_add] at inv
+    refine ⟨?_, by simp, ?_⟩
+    · rw [List.pairwise_append]
+      refine ⟨List.pairwise_reverse.mpr (inv.1.imp (fun h => h)), by simp, ?_⟩
+      intro a ha b hb
+      simp at hb; subst hb
+      exact inv.2 a (List.mem_reverse.mp ha)
+    · intro p hp
+      rcases List.mem_append.mp hp with hp | hp
+      · exact Nat.le_of_lt (inv.2 p (List.mem_reverse.mp hp))
+      · simp at hp; omega
+
+/-- **markbase_split_real_class_info_preserves.**  Take ANY MarkBasePos subtable (well-formed mark
+coverage, one record per mark, `classCount` offsets per base record — null or not) and run the
+size loop on the class information the REAL `get_class_info` computes from ANY mark-record object
+ids, ANY base offset list (in particular the non-null offsets of a matrix with nulls, where the
+attribution is wrong) and ANY object sizes.  If it decides to split, the split does not panic and
+every (mark, base) pair keeps its anchors: the mis-attribution changes WHERE the subtable is cut
+(hence the size of the pieces, hence possibly `PackingFailed`), never WHAT a lookup answers. -/
+theorem markbase_split_real_class_info_preserves {A : Type} (t : MarkBase A) (hwf : t.markCov.WF)
+    (hlen : t.marks.length = t.markCov.glyphs.length)
+    (hrows : ∀ row ∈ t.bases, row.length = t.classCount)
+    (obj : Nat → AnchorObj) (baseCovSize baseCount : Nat) (recs : List (Nat × Nat)) (offs : List Nat)
+    (pts : List Nat)
+    (h : mbSplitPoints obj baseCovSize baseCount (getClassInfo t.classCount recs offs) = some pts) :
+    ∃ ts, splitMarkBaseGo t 0 pts = some ts ∧ ts.length = pts.length ∧
+      ∀ m b, firstMatchMB ts m b = t.lookup m b := by
+  have ⟨pw, last, _⟩ := mb_points_valid obj baseCovSize baseCount _ pts h
+  rw [getClassInfo_length] at last
+  exact markbase_split_preserves t hwf hlen hrows pts (pw.imp (fun h => Nat.le_of_lt h)) last
+
+/-! ### non-vacuity -/
+
+/-- marks 20 (class "1", then moved to class "2": `Err`), 21 (class "2"); base 5 gets anchors for
+both classes (the second insert for class "2" wins), base 6 only for class "1" -/
+def exMbOps : List (MbOp Nat) :=
+  [.mark 20 1 100, .mark 21 2 101, .mark 20 2 102, .base 5 1 200, .base 5 2 201, .base 5 2 202, .base 6 1 203]
+
+example : ((MarkToBase.ofOps exMbOps MarkToBase.empty).bind MarkToBase.build).map
+    (fun t => (t.classCount, t.marks, t.bases)) =
+    some (2, [(1, 102), (1, 101)], [[some 200, some 202], [some 203, none]]) := by decide +kernel
+example : mbExpected exMbOps 20 5 = some (102, 202) ∧ mbExpected exMbOps 20 6 = none ∧
+    mbExpected exMbOps 22 5 = none := by decide +kernel
+/-- a base before any mark of its class: the builder panics -/
+example : MarkToBase.ofOps [MbOp.mark 20 1 100, .base 5 2 200] MarkToBase.empty = none := by
+  decide +kernel
+/-- the finding in miniature: 2 classes, base records `[a1, null]`, `[a2, a3]`.  Column-wise: class 0
+has `a1, a2`, class 1 has `a3`.  `get_class_info` chunks `[a1, a2, a3]` by 2: class 0 gets `a1`,
+class 1 gets `a2` (wrong), `a3` is dropped. -/
+example : (getClassInfo 2 [] (baseOffsetsOf [[some 1, none], [some 2, some 3]])).map (·.children) = [[1], [2]] ∧
+    (idealClassInfo 2 [] [[some 1, none], [some 2, some 3]]).map (·.children) = [[1, 2], [3]] := by
+  decide +kernel
+/-- anchor `a2` (flat position 2, one null before it): 1 % 2 ≠ 0, mis-attributed -/
+example : nullsBefore [some 1, none, some 2, some 3] 2 = 1 ∧ nonNullBefore [some 1, none, some 2, some 3] 2 = 1 := by
+  decide
+/-- the size loop does produce split points: 3 classes of one mark each, 30000-byte anchors -/
+example : mbSplitPoints (fun _ => ⟨30000, []⟩) 10 1 (getClassInfo 3 [(0, 1), (1, 2), (2, 3)] []) = some [2, 3] := by
   decide +kernel
 
 end FontVerif.C16
